@@ -1521,6 +1521,7 @@ func genC08(b *builder) {
 		nt = 17 + r.Intn(10)
 	}
 	dated := r.Intn(8) == 0 // every call carries calendar dates in its reply
+	pool := model.Date{Y: 1900 + r.Intn(200), M: 1 + r.Intn(12), D: 1 + r.Intn(28)}
 	listening := false
 	for t := 0; t < nt; t++ {
 		tk := engine.Task{}
@@ -1565,6 +1566,20 @@ func genC08(b *builder) {
 			}
 			a := b.args(op, serial, known)
 			st := b.callStep(client, op, a, known, b.early(T), model.ReplyOpts{Junk: true})
+			if dated && r.Intn(2) == 0 {
+				// the dates of concurrent replies are relatives: same day and month, years 64 apart - whatever
+				// table a decoder might keep them in, these are the ones that end up in the same place
+				for i := range st.Plan.Emits {
+					if e := &st.Plan.Emits[i]; e.Class == "valid" && len(e.Data) == 64 {
+						for _, f := range model.ReplyFields(op) {
+							if f.Kind == model.KDate {
+								y := pool.Y + 64*r.Intn(4)
+								e.Data[f.Off], e.Data[f.Off+1], e.Data[f.Off+2], e.Data[f.Off+3] = bcd(y/100), bcd(y%100), bcd(pool.M), bcd(pool.D)
+							}
+						}
+					}
+				}
+			}
 			rt := b.route(client, op, serial)
 			if rt.Path == "broadcast" && r.Intn(3) == 0 {
 				// everybody on the network hears a broadcast: other controllers answer too, and noise is noise
